@@ -71,13 +71,17 @@ def worker(scn):
     d = tempfile.mkdtemp(prefix="cvc18_", dir=C.scratch_root())
     try:
         root = os.path.join(d, "p")
-        S.build_store_project(root, scn)
+        commits = S.build_store_project(root, scn)
         seen = set()
         ctl = os.path.join(root, ".ctl")
         out = []
         for st in scn["steps"]:
             if st["cmd"] == "plant":
                 S.apply_plant(root, st["entries"])
+                continue
+            if st["cmd"] == "git":
+                from .. import project as P
+                P.git(root, "checkout", "-q", "-f", "--detach", commits[st["commit"]])
                 continue
             for f in os.listdir(ctl):
                 if f.startswith("exit_"):
@@ -107,6 +111,18 @@ def worker(scn):
 
 def scenario(rng, k):
     proj, cpkg, chosen = project(rng)
+    if k % 3 == 2:
+        # git project: the selected version of a dependency moves BACK to an older one when HEAD moves back
+        proj["config"] = ""
+        steps = [{"cmd": "git", "commit": 0},
+                 {"cmd": "run", "argv": ["run", "//:top"], "clock": 100},
+                 {"cmd": "git", "commit": 1},
+                 {"cmd": "run", "argv": ["run", "//:top", rng.choice(["--again", "--this-commit"])], "clock": 200},
+                 {"cmd": "git", "commit": 0},
+                 {"cmd": "run", "argv": ["run", "//:top"], "clock": 300},
+                 {"cmd": "git", "commit": 1},
+                 {"cmd": "run", "argv": ["run", "//:top"], "clock": 400}]
+        return {"project": proj, "cpkg": cpkg, "chosen": chosen, "steps": steps, "tag": k, "git": {"commits": 2}}
     steps = [{"cmd": "run", "argv": ["run", "//:top"], "clock": 100}]
     r = rng.random()
     if r < 0.3:
@@ -172,7 +188,7 @@ def main(tier):
         "traces_validated_against_impl": len(traces),
         "rule": "combine over a random subset (>=2) of {experiment x3 in nested packages, command, command with empty output, "
                 "group, nested combine}, placed in one of 3 packages, with a sibling run_command listing the same dependencies; "
-                "history = run ; [run] ; [run --again (from a package dir)] ; [--again with a failing dependency] ; [plant a "
+                "history = run ; [run] ; [run --again (from a package dir)] (every third history: a git project whose HEAD moves forth and back, so the selected versions move back to older ones) ; [--again with a failing dependency] ; [plant a "
                 "file/dir under a dependency's name ; run --again]; distinct by (dependency set, package, exit vector)",
     })
     if traces and traces[0]["steps"]:
